@@ -284,7 +284,10 @@ def read_rest_base(src):
                     elif isinstance(v, ast.Constant) and v.value == b"":
                         tv = "DBytes"
                     else:
-                        raise ValueError(f"unexpected default literal {ast.unparse(v)} for {k.value}")
+                        # a literal the model has no counterpart for: the comparison fails (it can never equal a model value),
+                        # but the library is still driven so that the oracle can name a failing call
+                        tv = f"(DStr {coq.s('<unexpected literal ' + ast.unparse(v) + '>')})"
+                        info["pins"].append((f"default literal of {k.value}", ast.unparse(v), "one of '', {}, 0, 0.0, False, b''"))
                     tbl.append((k.value, tv))
                 info["table"] = tbl
             elif isinstance(node, ast.FunctionDef) and node.name == "_get_unset_required_fields":
@@ -805,6 +808,12 @@ def witness_api():
     svc.rpc("Watch", w.fqn, rep.fqn, ss=True, http=("post", "/v1/{name=items/*}:watch"), body="*")
     svc.rpc("Tail", w.fqn, rep.fqn, ss=True, http=("post", "/v1/{name=items/*}:tail"), body="sub")
     svc.rpc("Follow", w.fqn, rep.fqn, ss=True, http=("get", "/v1/{name=items/*}:follow"))
+    # REQUIRED query parameters of every scalar kind (and an enum), left at their defaults and set (seeded change C04-m)
+    kd = f.message("KindsRequest"); kd.field("name", 1, "string")
+    for n_, t_ in enumerate(sorted(apigen.SCALARS), 2):
+        kd.field("q_" + t_, n_, t_, required=True)
+    kd.field("q_enum", 30, ("enum", kind), required=True)
+    svc.rpc("Kinds", kd.fqn, rep.fqn, http=("get", "/v1/{name=items/*}:kinds"))
     e = f.message("EchoRequest"); e.field("name", 1, "string")
     # request / reply on either side of the API package boundary (seeded change C04-l): proto-plus types are converted
     # with .pb(), dependency types are plain protobuf.  Crc etc. are api/api; these are dep/dep, dep/api, api/dep
@@ -818,6 +827,17 @@ def witness_api():
     kr = f.message("KwReply"); kr.field("ignore_unknown_fields", 1, "string").field("note", 2, "string")
     svc.rpc("Echo", e.fqn, kr.fqn, http=("get", "/v1/{name=items/*}:echo"))
     return apigen.request([f])
+
+
+def kinds_request(d, filled):
+    """KindsRequest with every REQUIRED query parameter at its default (filled=False) or set (filled=True)."""
+    m = d.new(A.PKG + ".KindsRequest", name="items/k")
+    if filled:
+        for t in apigen.SCALARS:
+            v = {"string": "s", "bytes": b"\x01\xff", "bool": True, "double": 1.5, "float": -2.25}.get(t, 7)
+            setattr(m, "q_" + t, v)
+        m.q_enum = 2
+    return m
 
 
 def run_witnesses(ctx):
@@ -845,6 +865,7 @@ def run_witnesses(ctx):
     expr = d.new("google.type.Expr", title="items/e1", description="d", expression="a > b")
     fixed.update({"Eval": [d.b64(expr)], "Lookup": [d.b64(expr)], "GetSettings": [d.b64(d.new("google.protobuf.Empty"))],
                   "Describe": [d.b64(d.new(P + ".EchoRequest", name="items/i"))], "ReadPolicy": [d.b64(d.new(P + ".EchoRequest", name="items/i"))]})
+    fixed["Kinds"] = [d.b64(kinds_request(d, False)), d.b64(kinds_request(d, True))]
     plain = d.new(P + ".PlainRequest", parent="shelves/s1", kind=2, filter="x")
     plain.sub.count = 4
     fixed["Plain"] = [d.b64(plain), d.b64(d.new(P + ".PlainRequest", parent="shelves/s1"))]
